@@ -166,6 +166,18 @@ def load_baseline(pid):
     return {ln.strip() for ln in open(p) if ln.strip()}
 
 
+def load_prefer(pid):
+    """name -> portfolio entry that discharged the obligation slowly on the unchanged tree (written with --update-baseline; only a search-order hint)."""
+    p = os.path.join(ROOT, "baseline", f"{pid}.prefer")
+    out = {}
+    if os.path.exists(p):
+        for ln in open(p):
+            nm, _, be = ln.rstrip("\n").partition("\t")
+            if nm and be:
+                out[nm] = be
+    return out
+
+
 def obligation_selected(prop, name: str) -> bool:
     sel = getattr(prop, "SELECT", None)
     if sel is None:
@@ -185,6 +197,9 @@ def run_property(prop, pid, tier, seed, args, t0):
     carves = [(k["match"], k["carve"]) for k in known if k.get("carve")]
     obs, info = driver.generate(functions, tier=tier, exclude=exclude, carves=carves) if functions else ([], {})
     lemma_obs = driver.generate_lemmas(getattr(prop, "LEMMAS", []))
+    prefer = load_prefer(pid)
+    for o_ in obs:
+        o_.prefer = prefer.get(o_.name, "")
     obs = [o for o in obs if obligation_selected(prop, o.name)] + lemma_obs
     not_run = {q: i for q, i in info.items() if i["status"] != "ok"}
     seeds = [seed] if tier == "quick" else [seed, seed + 1]
@@ -440,6 +455,14 @@ def run_property(prop, pid, tier, seed, args, t0):
         with open(os.path.join(ROOT, "baseline", f"{pid}.txt"), "w") as f:
             for nm in sorted({norm_name(o.name) for o, _ in proved}):
                 f.write(nm + "\n")
+        slowp = sorted((o.name, r.get("backend", "")) for o, r in proved if r.get("time", 0) > 3.0 and not r.get("cached") and str(r.get("backend", "")).startswith("z3-euf(strings abstracted)")
+                       and "cone" not in r.get("backend", "") and "quantifier-free" not in r.get("backend", "") and "(peeled)" not in r.get("backend", ""))
+        if slowp or os.path.exists(os.path.join(ROOT, "baseline", f"{pid}.prefer")):
+            keep = load_prefer(pid)
+            keep.update(dict(slowp))
+            with open(os.path.join(ROOT, "baseline", f"{pid}.prefer"), "w") as f:
+                for nm, be in sorted(keep.items()):
+                    f.write(f"{nm}\t{be}\n")
     print(f"{pid}: {len(proved)}/{n_obl} obligations discharged, {len(refuted)} refuted, {len(unknown) - len([1 for o, _ in unknown if o.name in known_obl])} undecided"
           + (f", {len(known_obl)} inside recorded findings" if known_obl else "") + "; "
           f"bounded: {evals} evaluations, {len(failures)} failures; {round(time.time() - t0, 1)}s")
